@@ -9,6 +9,7 @@ PROPERTY_MODULES = {
     "C10": ["contracts.c10"],
     "C11": ["contracts.c05", "contracts.c11"],
     "C12": ["contracts.c12"],
+    "C13": ["contracts.c05", "contracts.c13"],
     "C19": ["contracts.c19"],
     "C20": ["contracts.c20"],
     "C16": ["contracts.c16"],
